@@ -261,10 +261,7 @@ Proof.
       - unfold uniq, nonces. cbn. constructor; auto. intro Hin. apply in_map_iff in Hin as (x & Hx & Hin).
         assert (In x (litems pl) /\ t_nonce x <> t_nonce t) by (apply Rm; auto). tauto. }
     cbn [app] in W1. rewrite app_nil_r in W1. apply wf_all_remove in W1.
-    set (p2 := if l_empty pl'
-               then set_beats (set_pending (all_remove p (t_id t)) (adel (pending (all_remove p (t_id t))) (t_from t)))
-                              (adel (beats (all_remove p (t_id t))) (t_from t))
-               else set_pending (all_remove p (t_id t)) (aset (pending (all_remove p (t_id t))) (t_from t) pl')).
+    match goal with |- context [enqueue_all ?X invalids] => set (p2 := X) end.
     assert (W2 : WFx (invalids ++ []) p2 /\ ST p2 /\ all p2 = all (all_remove p (t_id t))).
     { rewrite app_nil_r. unfold p2. destruct (l_empty pl') eqn:Em.
       - apply l_empty_items in Em. split; [|split; [|reflexivity]].
@@ -277,7 +274,6 @@ Proof.
           rewrite Rs. eapply S; eauto. }
     destruct W2 as (W2 & S2 & A2).
     destruct (wf_enqueue_all _ _ _ W2) as (W3 & P3 & A3 & _).
-    fold (enqueue_all p2 invalids).
     split; [eapply wf_ext; [| | |apply W3]; reflexivity|].
     split; [apply (st_ext (enqueue_all p2 invalids)); auto; apply st_enqueue_all; auto|].
     intros x. cbn [all set_pnonces]. rewrite A3, A2. intro Hx. apply all_remove_in in Hx. tauto.
@@ -312,7 +308,7 @@ Proof.
         + intros [Hx|[<-|[]]]; auto; apply Rm; auto.
       - intros x Hx [<-|[]].
         assert (In t (litems ql) /\ t_nonce t <> t_nonce t) by (apply Rm; auto). tauto.
-      - unfold uniq, nonces. cbn. constructor; auto. constructor. }
+      - unfold uniq, nonces. cbn. constructor; auto; constructor. }
     cbn [app] in W1. apply wf_all_remove in W1.
     destruct (l_empty ql') eqn:Em.
     + apply l_empty_items in Em. split; [|split].
@@ -333,4 +329,94 @@ Proof.
   unfold remove_txs. induction l as [|t r IH]; intros p W S; cbn [fold_left]; auto.
   destruct (wf_remove_tx p (t_id t) W S) as (W1 & S1 & A1).
   destruct (IH _ W1 S1) as (W2 & S2 & A2). auto.
+Qed.
+
+(* ---- add / addTxsLocked ---------------------------------------------------- *)
+Lemma wf_replace_pending p t l l' o :
+  WF p -> ST p ->
+  (forall x, In x (all p) -> t_id x <> t_id t) ->
+  aget (pending p) (t_from t) = Some l ->
+  l_add l t (price_bump (cfg p)) = (true, Some o, l') ->
+  WF (all_add (all_remove (set_pending p (aset (pending p) (t_from t) l')) (t_id o)) t) /\
+  ST (all_add (all_remove (set_pending p (aset (pending p) (t_from t) l')) (t_id o)) t).
+Proof.
+  intros W S Fr G A. pose proof W as W0. dwf W0.
+  pose proof (l_add_spec _ _ _ _ _ _ A) as [_ A1]. destruct (A1 eq_refl) as (Eo & Es & I). clear A1.
+  symmetry in Eo. apply sm_get_some in Eo as [O1 O2]. fold (litems l) in O1.
+  pose proof (lst_some _ _ _ G) as L.
+  split.
+  - eapply (wf_insert_p p _ t); eauto.
+    + intros x Hx E. eapply (Wdpq (t_from t) o x); eauto; [rewrite L; auto|congruence].
+    + intros b x. cbn [pending all_add all_remove set_all set_pending]. rewrite lst_aset.
+      eqb_cases (t_from t) b.
+      * rewrite I, L. tauto.
+      * split; [intro; right; split; auto; intros [H1 _]; congruence|]. intros [[H _]|[H _]]; auto. congruence.
+    + intro b. cbn [pending all_add all_remove set_all set_pending]. rewrite lst_aset.
+      eqb_cases (t_from t) b; auto. eapply l_add_uniq; eauto. rewrite <- L. auto.
+    + intro x. rewrite all_add_in, all_remove_in. cbn [all set_pending]. split.
+      * intros [->|[[H1 H2] H3]]; auto. right. split; auto. intros [H4 H5]. apply H2. f_equal.
+        eapply (uniq_inj (lst (pending p) (t_from t))); eauto; [rewrite L; auto|congruence].
+      * intros [->|[H1 H2]]; auto. right. split; [split; auto|auto].
+        intro E. apply H2. assert (x = o) by (eapply ids_inj; eauto; eapply Wpa; rewrite L; eauto).
+        subst. rewrite L. auto.
+    + apply all_add_nodup. cbn. apply NoDup_map_filter. auto.
+  - apply (st_ext (put_p p (t_from t) l')); auto. apply st_put_p; auto. rewrite Es. eapply S; eauto.
+Qed.
+
+Lemma wf_add_tx p t local :
+  WF p -> ST p ->
+  let '(rep, e, p') := add_tx p t local in
+  WF p' /\ ST p' /\ (forall x, In x (all p') -> x = t \/ In x (all p)).
+Proof.
+  intros W S. unfold add_tx.
+  destruct (all_get p (t_id t)) eqn:G; [auto|].
+  pose proof (all_get_none _ _ G) as Fr.
+  destruct (negb (N.eqb (validate_tx p t local) E_ok)); [auto|].
+  set (limit := global_slots (cfg p) + global_queue (cfg p)).
+  set (full := N.leb limit (all_count p)).
+  destruct (full && negb local && priced_underpriced p t); [auto|].
+  set (p1 := if full then remove_txs p (priced_discard p (all_count p - (limit - 1))) else p).
+  assert (H1 : WF p1 /\ ST p1 /\ (forall x, In x (all p1) -> In x (all p))).
+  { unfold p1. destruct full; auto. apply wf_remove_txs; auto. }
+  destruct H1 as (W1 & S1 & A1).
+  assert (Fr1 : forall x, In x (all p1) -> t_id x <> t_id t) by (intros x Hx; apply Fr; auto).
+  destruct (match aget (pending p1) (t_from t) with
+            | Some l => if l_overlaps l t then Some l else None
+            | None => None end) as [l|] eqn:OV.
+  - destruct (aget (pending p1) (t_from t)) as [l0|] eqn:GP; [|discriminate].
+    destruct (l_overlaps l0 t) eqn:O; [|discriminate]. inversion OV; subst l0. clear OV.
+    destruct (l_add l t (price_bump (cfg p1))) as [[ins old] l'] eqn:A.
+    destruct ins; cbn [negb].
+    + pose proof (l_add_spec _ _ _ _ _ _ A) as [_ A2]. destruct (A2 eq_refl) as (Eo & _ & _).
+      unfold l_overlaps in O. destruct (sm_get (txs l) (t_nonce t)) as [o|] eqn:GO; [|discriminate].
+      subst old.
+      destruct (wf_replace_pending p1 t l l' o W1 S1 Fr1 GP A) as [W2 S2].
+      split; auto. split; auto.
+      intros x Hx. apply all_add_in in Hx as [->|[Hx _]]; auto. apply all_remove_in in Hx as [Hx _].
+      right. apply A1. auto.
+    + split; auto.
+  - assert (Np : forall x, In x (lst (pending p1) (t_from t)) -> t_nonce x <> t_nonce t).
+    { unfold lst. destruct (aget (pending p1) (t_from t)) as [l0|] eqn:GP; [|intros x []].
+      destruct (l_overlaps l0 t) eqn:O; [discriminate|]. unfold l_overlaps in O.
+      destruct (sm_get (txs l0) (t_nonce t)) eqn:GO; [discriminate|]. intros x Hx. eapply sm_get_none; eauto. }
+    pose proof (wf_enqueue_new p1 t W1 S1 Fr1 Np) as H.
+    destruct (enqueue_tx p1 t) as [[replaced e] p2].
+    destruct H as (W2 & S2 & P2 & _ & _ & A2).
+    destruct (negb (N.eqb e E_ok)).
+    + split; auto. split; auto. intros x Hx. destruct (A2 x Hx); auto.
+    + assert (K : forall p3, pending p3 = pending p2 -> queue p3 = queue p2 -> all p3 = all p2 ->
+                    WF p3 /\ ST p3 /\ (forall x, In x (all p3) -> x = t \/ In x (all p))).
+      { intros p3 E1 E2 E3. split; [eapply wf_ext; eauto|]. split; [eapply st_ext; eauto|].
+        rewrite E3. intros x Hx. destruct (A2 x Hx); auto. }
+      destruct (local && negb (is_local p2 (t_from t))); apply K; reflexivity.
+Qed.
+
+Lemma wf_add_txs_locked l local : forall p,
+  WF p -> ST p ->
+  let '(errs, dirty, p') := add_txs_locked p l local in WF p' /\ ST p'.
+Proof.
+  induction l as [|t r IH]; intros p W S; cbn [add_txs_locked]; auto.
+  pose proof (wf_add_tx p t local W S) as H.
+  destruct (add_tx p t local) as [[replaced e] p1]. destruct H as (W1 & S1 & _).
+  specialize (IH p1 W1 S1). destruct (add_txs_locked p1 r local) as [[errs dirty] p2]. auto.
 Qed.
